@@ -172,6 +172,19 @@ PROPS = {
         assumptions=["storage the caller described = rows up to the end of the last 32-bit word holding a pixel (+ inter-row padding of a padded stride)",
                      "red-zone/guard-page detection misses non-adjacent overflows into other live heap blocks and intra-object overflows"],
     ),
+    "C19": dict(
+        level="exploration", monitors={"mon_blt": {"sources": ["mon_blt.c", "vf_req.c", "ref_pixel.c", "ref_ops.c", "vf.c"]}},
+        runs=[dict(name=nm, monitor="mon_blt", flavour="plain", config=nm, env={"PIXMAN_DISABLE": dis} if dis else {}, cases={"quick": 4000, "thorough": 200000})
+              for nm, dis in [("default", ""), ("mmx-top", "sse2 ssse3"), ("c-only", "mmx sse2 ssse3"), ("general-only", "fast mmx sse2 ssse3")]] +
+             [dict(name="default-asan", monitor="mon_blt", flavour="asan", config="default", cases={"quick": 1500, "thorough": 60000}),
+              dict(name="mmx-asan", monitor="mon_blt", flavour="asan", config="mmx-top", env={"PIXMAN_DISABLE": "sse2 ssse3"}, cases={"quick": 1000, "thorough": 40000})],
+        rule="one case = 20 calls: pixman_fill on bpp {1,4,8,16,24,32,64,128} buffers (x/width at all alignments, padded and negative strides, zero sizes, fillers with bits above the depth) judged against a byte model on guard-paged exact-size storage "
+             "(TRUE => exactly the rectangle holds the low bpp bits of the filler, FALSE => nothing changed); pixman_blt likewise incl. mismatching depths; fill_boxes / fill_rectangles with 0..10 (overlapping, partly outside, clipped) boxes, all 53 operators, "
+             "colours incl. alpha 0xff00..0xffff, every direct destination format, clips, alpha maps and accessors, compared with compositing a solid image box by box; run under 4 implementation chains; "
+             "evaluations = calls judged; a cell = (call, bpp/op/format, result, alignment/clip class)",
+        floors={"any": {"fill_calls": 20000, "blt_calls": 10000, "fill_boxes_calls": 20000, "labels:boxes_op_fmt": 300}},
+        assumptions=["byte model written from the statement; the filler is taken modulo 2^bpp"],
+    ),
 }
 
 # ---------------------------------------------------------------- MANIFEST texts
@@ -215,6 +228,11 @@ MANIFEST_TEXT["C01"] = dict(
     technique="reference-model runtime monitor: exact 8-bit integer rule and real-valued Render/PDF equations evaluated on every destination pixel (default and general-only chains, plain + ASan)",
     level_text="Exploration: ~10^7 (quick) to ~10^9 (thorough) destination pixels over all 53 operators x 3 mask modes x every direct-colour format (narrow, 10-bit, sRGB, float) and operand kind, each compared with an independent oracle: bit-exact for Porter-Duff/ADD on narrow formats, one destination step for float evaluation; the thorough tier walks all 256x256 alpha pairs for the 14 exact operators.",
     level_note="trusted: harness/ref_ops.c (equations from the Render/PDF specifications) and ref_pixel.c (codec); HSL with component alpha, dithering and indexed/YUV operands are outside this check")
+
+MANIFEST_TEXT["C19"] = dict(
+    technique="model-based runtime monitor (byte model for fill/blt on guard-paged storage) + differential monitor (fill_boxes vs per-box compositing), 4 implementation chains, plain + ASan",
+    level_text="Exploration: 10^5..10^7 calls over every depth, alignment, stride, operator, colour and destination format; fill/blt judged byte-for-byte against a model including everything outside the rectangle, fill_boxes judged against compositing.",
+    level_note="trusted: byte model in harness/mon_blt.c; digest of defined destination bits for the differential part")
 
 NOT_CLAIMED = {p: "monitor not built yet in this round (design in DESIGN.md section 6); no claim is made" for p in
                ["C%02d" % i for i in range(1, 21)]}
